@@ -142,6 +142,7 @@ func TestC01(t *testing.T) {
 		selMint := definition.ABIToken.Methods[definition.MintMethodName].Id()
 		selBurn := definition.ABIToken.Methods[definition.BurnMethodName].Id()
 		seenRecv := map[types.Hash]bool{}
+		rebased := false
 		inv := func() {
 			if h.Dead {
 				return
@@ -179,6 +180,11 @@ func TestC01(t *testing.T) {
 			}
 			if len(blocks) > 0 {
 				tokenHeight = blocks[len(blocks)-1].Height
+			}
+			if rebased {
+				// a momentum from elsewhere was inserted under the pool: pooled (never final) token-contract receives may
+				// have been dropped with their effect; the step clause starts again from this state
+				rebased, changed, supplyOps = false, false, 0
 			}
 			if changed && supplyOps == 0 {
 				c.Failf("C01/supply-moved", "total supply changed without an Issue/Mint/Burn receive: before %v after %v", prev, cur)
@@ -244,8 +250,42 @@ func TestC01(t *testing.T) {
 				c.Class("negative-amount-accepted-over-rpc")
 			}
 		}
+		// a momentum of another pillar's node that has not seen this node's unconfirmed blocks (contract receives and the
+		// sends they generated included): the pool is rebuilt on top of it, the blocks are confirmed later
+		var a2 *sim.Node
+		var h2 *sim.Hist
+		foreignMomentum := func() {
+			if h.Dead {
+				return
+			}
+			if a2 == nil {
+				a2 = h.W.AddNode("A2", true)
+				h2 = sim.NewHistOn(c, h.W, a2, h)
+			}
+			if a2.Height() < h.A.Height() {
+				if _, err := a2.Bridge.InsertChain(h.A.Range(a2.Height()+1, h.A.Height())); err != nil {
+					c.Note("second producer cannot follow: %v", err)
+					return
+				}
+			}
+			pooled := len(h.A.Chain.GetAllUncommittedAccountBlocks())
+			if !h2.Produce(c.Weighted("foreign.skip", 5, 1)) {
+				return
+			}
+			if _, err := h.A.Bridge.InsertChain(a2.Range(h.A.Height()+1, a2.Height())); err != nil {
+				c.Note("momentum of the second producer refused: %v", err)
+				return
+			}
+			h.Momentums++
+			rebased = true
+			c.Note("momentum %d by a second producer that knew none of the %d blocks pooled here", h.A.Height(), pooled)
+			if pooled > 0 {
+				c.Class("foreign-momentum-over-a-non-empty-pool")
+			}
+		}
 		flow := sim.BridgeFlowIntents()
 		c.Repeat(map[string]func(){
+			"foreignMomentum": foreignMomentum,
 			// request flow of the bridge (wraps of a bridge-owned token burn it, redeems mint it): skipped in other worlds
 			"bridgeFlow": func() {
 				if bridgeWorld {
@@ -285,5 +325,23 @@ func TestC01(t *testing.T) {
 		c.R.Count("accepted_blocks", h.Accepted)
 		c.R.Count("rejected_blocks", h.Rejected)
 		c.R.Count("momentums", h.Momentums)
+	})
+}
+
+// The identity holds on a node that abandoned a branch for a longer one (whatever its pool kept, whatever it produces
+// afterwards) as on a node that only saw the adopted branch.
+func TestC01Reorg(t *testing.T) {
+	pbt.Check(t, "C01", func(c *pbt.C) {
+		reorgScenario(c, "C01", func(c *pbt.C, key string, b, cn *sim.Node) {
+			for _, n := range []*sim.Node{b, cn} {
+				msg, _, l, err := sim.CheckSupply(n)
+				if err != nil {
+					c.Failf("C01/scan-error", "ledger scan of %s failed: %v", n.Name, err)
+				}
+				if msg != "" {
+					c.Failf("C01/identity", "on %s after a reorganisation, at momentum %d (+%d pooled blocks): %s", n.Name, n.Height(), len(l.Pooled), msg)
+				}
+			}
+		})
 	})
 }
